@@ -20,6 +20,20 @@ CLAIMED = {
         "note": TRUSTED,
         "technique": "static analysis: MIR panic/divergence-surface enumeration with dominance-based guard discharge, call-graph SCCs, reviewed allow-table",
     },
+    "C13": {
+        "text": "Static, all-sites: every place where HashMap/HashSet iteration order enters the three crates "
+                "(std iterators, the local wrapper types AmountIter / intern::Iter, local functions returning them, "
+                "retain) is followed along the typed adaptor chain to its consumer; the consumer must be "
+                "order-insensitive by a checked idiom (order-free reduction, collect into a keyed container, "
+                "collect-then-sort before any other use, single element under a len<=1 guard, returned to tracked "
+                "callers) or by a reviewed table entry keyed on the fingerprint of what the loop does per element "
+                "and how it can exit early; ambient nondeterminism APIs (clock, env, dir listing, threads, random "
+                "state) must be tabled.  A new unsorted iteration that reaches output, an error path or a "
+                "positional use is a violation.",
+        "design_ref": "DESIGN.md §3 E4, §4 C13",
+        "note": TRUSTED,
+        "technique": "static analysis: type-directed hash-order flow over MIR with consumer fingerprints and checked order-insensitivity idioms",
+    },
 }
 
 _WIP = "check not built yet in this session (design: DESIGN.md §4); not claimed until it is"
